@@ -163,6 +163,11 @@ func main() {
 			if len(want) > 0 && !intersects(o.Props, want) {
 				continue
 			}
+			if o.Backend == "static" {
+				output.Obligations = append(output.Obligations, o)
+				rep.Obls++
+				continue
+			}
 			var sb strings.Builder
 			sb.WriteString(prelude)
 			sb.WriteString(decls[:o.declLen])
@@ -252,6 +257,28 @@ func main() {
 			if err != nil {
 				rep.Error = err.Error()
 				output.Errors = append(output.Errors, fmt.Sprintf("%s: %v", k, err))
+			}
+			// vacuity guard: some exit of the function is reachable under all assumptions made
+			if len(c.rets) > 0 {
+				pall := map[string]bool{}
+				for _, o := range c.obls {
+					for _, p := range o.Props {
+						pall[p] = true
+					}
+				}
+				var ps []string
+				for p := range pall {
+					ps = append(ps, p)
+				}
+				sort.Strings(ps)
+				var rs []string
+				for _, r := range c.rets {
+					rs = append(rs, r.st.cur)
+				}
+				if len(ps) > 0 {
+					c.obls = append(c.obls, &Obligation{Name: c.oblName("exit-sat"), Fn: c.fnName, Kind: "exit-sat", Props: ps, Clause: "some exit reachable (assumptions not contradictory)",
+						Backend: "smt", declLen: c.sb.Len(), extra: sOr(rs...), Cover: true})
+				}
 			}
 			decls := c.sb.String()
 			for _, o := range c.obls {
@@ -398,7 +425,7 @@ func (g *Global) lemmaObligation(d PkgDecl) (*Obligation, error) {
 		if srt != "" {
 			n := c.fresh("l_" + p.Name)
 			c.declare(n, srt)
-			env.vars[p.Name] = SymVal{K: k, S: n}
+			env.vars[p.Name] = SymVal{K: k, S: n, T: specIntType(p.Type)}
 			continue
 		}
 		t, err := env.typeExprText(p.Type)
